@@ -4,6 +4,8 @@
    written from the property text (Spec/BuildSpec.v).  The input is the parsed configuration (the parser is
    property C02) and any system state. *)
 From CR Require Import Model.Build Spec.BuildSpec Proofs.Build gen.ExtPlugins.
+(* every consumer builds the RA at the moment of use, from sources that ask the system at every call (extracted): fresh_sources in Properties/Fresh.v *)
+From CR Require Properties.Fresh.
 From Coq Require Import Sorted String.
 Local Close Scope string_scope.
 Local Open Scope Z_scope.
